@@ -22,6 +22,8 @@ FACTORY = {
     "sel a>k": lambda ch: ("sel", ch, ("gt", A_, ("lit", "$k"))),
     "sel b in [a,k]": lambda ch: ("sel", ch, ("inseq", B_, (A_, ("lit", "$k")))),
     "sel a in range": lambda ch: ("sel", ch, ("inrange", A_, 0, 5, 2)),
+    "calc n=-a": lambda ch: ("calc", ch, "n", ("neg", A_)),
+    "sel -a<b": lambda ch: ("sel", ch, ("lt", ("neg", A_), B_)),
     "dedup": lambda ch: ("dedup", ch),
     "sort -b,a": lambda ch: ("sort", ch, ((B_, False), (A_, True))),
     "slice 0:1": lambda ch: ("slice", ch, 0, 1),
@@ -36,7 +38,7 @@ FACTORY = {
     "proj a @it1": lambda ch: ("proj", ch, ("a",), ("it1", True, False, False)),
 }
 EVAL = ("compile", "execute", "process", "diagnose")
-QUICK_FACTORY = ("calc d", "proj -b", "sel a>k", "sel b in [a,k]", "dedup", "sort -b,a", "slice 0:1", "chain self", "join Z", "join sel(Z)",
+QUICK_FACTORY = ("calc d", "calc n=-a", "sel -a<b", "proj -b", "sel a>k", "sel b in [a,k]", "dedup", "sort -b,a", "slice 0:1", "chain self", "join Z", "join sel(Z)",
                  "Z join this", "mat",
                  "to it2", "to sq", "sel @it1", "proj a @it1")
 
@@ -88,8 +90,15 @@ def fingerprint(rel):
                 pay = f"payload does not end: {e}"
         elif isinstance(p, sql.Payload):
             pay = (str(p.from_clause), [str(w) for w in p.where], sorted((str(k), str(v)) for k, v in p.columns_available.items()))
+    op = getattr(rel, "operation", None)
+    req = None
+    if op is not None:
+        try:
+            req = sorted(str(c) for c in (op.columns_required if hasattr(op, "columns_required") else op.predicate.columns_required))
+        except Exception:  # noqa: BLE001
+            req = None
     return (repr(rel), str(rel), h, frozenset(rel.columns), rel.min_rows, rel.max_rows, pay,
-            None if isinstance(rel, Materialization) else (p is None), list(rel.messages) if isinstance(rel, LeafRelation) else None)
+            None if isinstance(rel, Materialization) else (p is None), list(rel.messages) if isinstance(rel, LeafRelation) else None, req)
 
 
 def all_nodes(rel, acc=None, seen=None):
@@ -157,7 +166,8 @@ def run_history(start, hist, ctx, valfn):
             now = fingerprint(r)
             if now != fp:
                 which = [i for i, (x, y) in enumerate(zip(fp, now)) if x != y]
-                names = ["repr", "str", "hash", "columns", "min_rows", "max_rows", "leaf payload content", "payload presence", "leaf messages"]
+                names = ["repr", "str", "hash", "columns", "min_rows", "max_rows", "leaf payload content", "payload presence", "leaf messages",
+                         "columns required by the node's operation"]
                 problems.append(("earlier-relation-changed", f"after '{after}': {[names[i] for i in which]} of {fp[1]} changed"))
                 prints[rid] = (r, now)
                 return
